@@ -45,6 +45,27 @@ def hashed_inputs(rng, n):
         else:
             out.append(("From", "#[from(%s)] struct S(u8);" % ", ".join(tys)))
             out.append(("AsRef", "#[as_ref(%s)] struct S(u8);" % ", ".join(tys)))
+    # near-duplicates and size swings: provoke state leaking from one expansion into the next
+    # (caches keyed by lossy keys, scratch collections that keep their capacity, counters)
+    words = ["High", "Water", "Low", "Mark", "Foo", "Bar", "Baz", "Http", "Server", "Id", "Max", "Value", "Type", "Name", "Red", "Green"]
+    casings = ["lowercase", "UPPERCASE", "PascalCase", "camelCase", "snake_case", "SCREAMING_SNAKE_CASE", "kebab-case", "SCREAMING-KEBAB-CASE"]
+    for k in range(max(6, n // 8)):
+        casing = rng.choice(casings)
+        pairs = [(rng.choice(words), rng.choice(words)) for _ in range(rng.randrange(2, 6))]
+        a = ", ".join(dict.fromkeys(x + y for x, y in pairs))
+        b = ", ".join(dict.fromkeys(x + y.lower() for x, y in pairs))
+        c = ", ".join(dict.fromkeys((x + y).upper() for x, y in pairs))
+        for tr, at in (("Display", "display"),):
+            out.append((tr, '#[%s(rename_all = "%s")] enum E { %s }' % (at, casing, a)))
+            out.append((tr, '#[%s(rename_all = "%s")] enum E { %s }' % (at, casing, b)))
+            out.append((tr, '#[%s(rename_all = "%s")] enum E { %s }' % (at, casing, c)))
+            out.append((tr, '#[%s(rename_all = "%s")] struct %s;' % (at, casing, (pairs[0][0] + pairs[0][1]))))
+            out.append((tr, '#[%s(rename_all = "%s")] struct %s;' % (at, casing, (pairs[0][0] + pairs[0][1].lower()))))
+        size = rng.choice([2, 3, 5, 7, 13, 29, 36, 60, 120])
+        out.append(("FromStr", "enum E { %s }" % ", ".join("V%dx%s" % (i, rng.choice(words)) for i in range(size))))
+        out.append(("TryInto", "enum E { %s }" % ", ".join("V%d(%s)" % (i, rng.choice(TYS[:14])) for i in range(size))))
+        out.append(("IsVariant", "enum E { %s }" % ", ".join("%s%s%d" % (rng.choice(words), rng.choice(words), i) for i in range(min(size, 20)))))
+        out.append(("Unwrap", "enum E { %s }" % ", ".join("%s%s%d(u8)" % (rng.choice(words), rng.choice(words).lower(), i) for i in range(min(size, 20)))))
     return out
 
 
